@@ -451,7 +451,7 @@ class CacheEngine(Engine):
             if op['force']:
                 stats['forced'] += 1
             if ent is not None and ent[0] == 'unknown':
-                model.pop(k, None)
+                # (a call that stored nothing - hit on whatever is there, or a raising computer - leaves the entry as unknown as before)
                 if 'ret' in o and o['calls'] == 1 and not op['raise']:
                     model[k] = ('ok', newv)
                 continue
